@@ -29,6 +29,14 @@ import Tie.Excerpt
 #print axioms Sourcer.C07_at_most_once
 #print axioms Sourcer.C07_evaluation_bound
 #print axioms Sourcer.C07_memo_write_once
+#print axioms Sourcer.C08_match_outcome
+#print axioms Sourcer.C08_failure_outcome
+#print axioms Sourcer.C09_index_range
+#print axioms Sourcer.C10_span_exact
+#print axioms Sourcer.C10_finalized_end
+#print axioms Sourcer.C10_nested
+#print axioms Sourcer.C10_ordered_seq
+#print axioms Sourcer.C10_ordered_list
 #print axioms Tie.implFlags_sound -- module Tie.Flags
 #print axioms Tie.impl_refines -- module Tie.Flags
 #print axioms Tie.map_index_eq -- module Tie.Excerpt
